@@ -4,6 +4,7 @@ import (
 	"fmt"
 
 	"verif/harness/internal/core"
+	"verif/harness/internal/gen"
 	"verif/harness/internal/obs"
 )
 
@@ -210,6 +211,15 @@ func (e *C07) Run(c *core.Ctx, idx int) {
 		c.Rec.Inconcl("generator could not produce a layout within the documented limits")
 		return
 	}
+	if idx%5 == 2 {
+		// the same numbers in another field type (SHORT as LONG, LONG as SHORT, BYTE as SHORT...):
+		// what a reader makes of an unusual type is its business, but it must make the same of it in
+		// both byte orders (this check compares the pair only, not the expectation)
+		retypeEntries(r, ec.rec.IFD0)
+		retypeEntries(r, ec.rec.Exif)
+		retypeEntries(r, ec.rec.GPS)
+		ec.desc += " retyped"
+	}
 	cs := r.U64()
 	le := embedAll(core.NewRng(cs), ec, false)
 	be := embedAll(core.NewRng(cs), ec, true)
@@ -243,5 +253,64 @@ func (e *C07) Run(c *core.Ctx, idx int) {
 	}
 	if c.Rec.WantSample() && idx%53 == 3 {
 		c.Rec.Sample(map[string]any{"case": ec.desc, "fields": ec.rec.Exp.Names, "containers": len(le)})
+	}
+}
+
+// retypeEntries rewrites some integer entries of d in another integer field type.
+func retypeEntries(r *core.Rng, d *gen.Dir) {
+	for i := range d.Entries {
+		en := &d.Entries[i]
+		if en.Child != nil || !r.Chance(1, 3) {
+			continue
+		}
+		v := en.Val
+		switch v.Type {
+		case gen.TShort:
+			if len(v.U16) == 0 {
+				continue
+			}
+			switch r.Intn(3) {
+			case 0: // LONG
+				out := make([]uint32, len(v.U16))
+				for k, x := range v.U16 {
+					out[k] = uint32(x)
+				}
+				en.Val = gen.Long(out...)
+			case 1: // BYTE (low bytes)
+				out := make([]byte, len(v.U16))
+				for k, x := range v.U16 {
+					out[k] = byte(x)
+				}
+				en.Val = gen.ByteV(out...)
+			default: // SSHORT
+				en.Val = gen.Val{Type: 8, U16: v.U16}
+			}
+		case gen.TLong:
+			if len(v.U32) == 0 {
+				continue
+			}
+			if r.Bool() {
+				out := make([]uint16, len(v.U32))
+				for k, x := range v.U32 {
+					out[k] = uint16(x)
+				}
+				en.Val = gen.Short(out...)
+			} else {
+				en.Val = gen.Val{Type: 9, U32: v.U32} // SLONG
+			}
+		case gen.TByte:
+			if len(v.B) == 0 {
+				continue
+			}
+			out := make([]uint16, len(v.B))
+			for k, x := range v.B {
+				out[k] = uint16(x)
+			}
+			en.Val = gen.Short(out...)
+		case gen.TRational:
+			en.Val = gen.SRational(v.Rat...)
+		case gen.TSRational:
+			en.Val = gen.Rational(v.Rat...)
+		}
 	}
 }
